@@ -59,7 +59,7 @@ def main():
                                       "failed_obligations": ev["coverage"].get("failed_obligations", [])[:4],
                                       "translator_notes": ev["coverage"].get("translator_notes", [])[:6]}
         finally:
-            sh("git -C %s checkout -- ." % EVAL_REPO)
+            sh("git -C %s checkout -- . && git -C %s clean -fdq -e _build -e _b" % (EVAL_REPO, EVAL_REPO))
             restore_evidence(keep)
         alarms = [k for k, v in res["checks"].items() if v["exit"] != 0]
         print(name, "files:", ",".join(sorted(files)), "checks:", len(ids), "ALARMS:", alarms, flush=True)
